@@ -1,6 +1,7 @@
 package main
 
 import (
+	"runtime/pprof"
 	"encoding/json"
 	"flag"
 	"fmt"
@@ -38,7 +39,13 @@ func main() {
 		outDir := fs.String("outdir", "", "")
 		verbose := fs.Bool("v", false, "")
 		pinFile := fs.String("pin", "", "cex json: run the interpreter with these concrete values")
+		prof := fs.String("cpuprofile", "", "")
 		fs.Parse(os.Args[2:])
+		if *prof != "" {
+			f, _ := os.Create(*prof)
+			pprof.StartCPUProfile(f)
+			defer pprof.StopCPUProfile()
+		}
 		od := *outDir
 		if od == "" {
 			od = driver.VerifRoot + "/out/" + *prop
